@@ -78,13 +78,23 @@ _p = st.integers(0, len(PRIOS) - 1)
 _pattern = st.sampled_from(['equal', 'asc', 'desc', 'table', 'two'])
 
 
+# default argument of pop/peek: absent, a distinct marker, None (the usual idiom; None is also one of the tasks),
+# or the very object that is at the head of the queue
+_dflt = st.sampled_from([False, False, True, True, 'none', 'head'])
+TASKS = ['t0', 't1', 't2', 't3', 't4', None, 0, '']
+
+
+def T(i):
+    return TASKS[i % len(TASKS)]
+
+
 def _pq_op(bulk_sizes):
     return st.one_of(
         st.tuples(st.just('add'), _t, _p), st.tuples(st.just('add'), _t, _p), st.tuples(st.just('add'), _t, _p),
         st.tuples(st.just('add_default'), _t),
         st.tuples(st.just('remove'), _t),
-        st.tuples(st.just('pop'), st.booleans()), st.tuples(st.just('pop'), st.booleans()),
-        st.tuples(st.just('peek'), st.booleans()),
+        st.tuples(st.just('pop'), _dflt), st.tuples(st.just('pop'), _dflt),
+        st.tuples(st.just('peek'), _dflt),
         st.tuples(st.just('len')),
         st.tuples(st.just('bulk'), bulk_sizes, _pattern, st.lists(_p, min_size=1, max_size=5)),
     ).map(list)
@@ -163,10 +173,10 @@ def _run_history(case, out, factor, first=None, drain_limit=None):
             name = op[0]
             where = 'step %d %r (queue size %d)' % (step, op, len(ref.live))
             if name == 'add':
-                if not do_add('t%d' % op[1], PRIOS[op[2]]):
+                if not do_add(T(op[1]), PRIOS[op[2]]):
                     return None
             elif name == 'add_default':
-                task = 't%d' % op[1]
+                task = T(op[1])
                 if task in ref.live:
                     readd[0] = True
                 for nm, q in qs:
@@ -176,7 +186,7 @@ def _run_history(case, out, factor, first=None, drain_limit=None):
                         return None
                 ref.add(task, None)
             elif name == 'remove':
-                task = 't%d' % op[1]
+                task = T(op[1])
                 exp = ('ok', None) if task in ref.live else ('exc', 'KeyError')
                 for nm, q in qs:
                     r = _call(q.remove, task)
@@ -187,18 +197,23 @@ def _run_history(case, out, factor, first=None, drain_limit=None):
                     ref.remove(task)
                     readd[0] = True
             elif name in ('pop', 'peek'):
-                with_default = op[1]
+                with_default = bool(op[1])
+                dflt = 'DEFAULT'
+                if op[1] == 'none':
+                    dflt = None
+                elif op[1] == 'head':
+                    dflt = ref.top() if ref.live else 't0'
                 if ref.live:
                     t = ref.top()
                     exp = ('ok', t)
                 elif with_default:
-                    exp = ('ok', 'DEFAULT')
+                    exp = ('ok', dflt)
                 else:
                     exp = ('exc', 'IndexError')
                 for nm, q in qs:
                     f = getattr(q, name)
-                    r = _call(f, 'DEFAULT') if with_default else _call(f)
-                    if r[:2] != exp[:2]:
+                    r = _call(f, dflt) if with_default else _call(f)
+                    if r[:2] != exp[:2] or (r[0] == 'ok' and type(r[1]) is not type(exp[1])):
                         fail(name, '%s: %s.%s() -> %r, reference %r; live entries (task: (-priority, arrival)) %s' % (
                             where, nm, name, r, exp, _sh(ref)))
                         return None
